@@ -10,4 +10,5 @@ func run(r *core.Run) {
 	runPg(r)
 	runMysql(r)
 	runBytea(r)
+	runPgExt(r)
 }
